@@ -65,12 +65,14 @@ def known_match(known, prop, f, hist, ev):
 
 
 def run_batch(out, label, dictname, histories, spec="Trace_File", nshards=None, known=None, driver="drive", keep=None,
-              extra_script=None, group_key=None, extra_specs=()):
+              extra_script=None, group_key=None, extra_specs=(), on_result=None):
     """Drive + validate one batch; classify failures for out.prop."""
     if not histories:
         return
     res = core.drive_and_validate(f"{out.prop}_{label}", dictname, histories, spec=spec, nshards=nshards, driver=driver,
                                   keep=keep, extra_script=extra_script, group_key=group_key, extra_specs=extra_specs)
+    if on_result:
+        on_result(res)
     out.histories += len(histories)
     out.events += res["events"]
     for h in histories:
@@ -108,7 +110,10 @@ def run_batch(out, label, dictname, histories, spec="Trace_File", nshards=None, 
                    "failed": [{"tag": x.tag, "rule": x.rule, "op_index": x.oi, "detail": x.detail} for x in mine],
                    "history": hist,
                    "event": {k2: v for k2, v in (ev or {}).items() if k2 not in ("img", "api", "reopen")} if ev else None}
-        path = core.write_replay(out.prop, f"{label}_{ghi}", payload)
+        if len(out.violations) < 60:
+            path = core.write_replay(out.prop, f"{label}_{ghi}", payload)
+        else:
+            path = out.violations[-1][1]       # replay files are written for the first 60 only
         out.violations.append((what, path))
 
 
@@ -252,19 +257,6 @@ def check_c10(tier, seed):
                   FILE_ASSUME)
 
 
-def check_c16(tier, seed):
-    out = Outcome("C16", tier, seed)
-    run_batch(out, "thresholds", "A", gens.threshold_histories(tier, seed))
-    for dn, hs in random_batches(seed + 4, tier, 40, 300, 40, dicts=("A", "B")).items():
-        run_batch(out, f"random{dn}", dn, hs)
-    from . import imagechecks
-    imagechecks.c16_deviations(out, tier, seed)
-    return finish(out, "model_checking",
-                  "part 1: for every image produced, strict Ok => permissive Ok with identical dump; part 2: documented deviations injected "
-                  "into TLC-generated layouts: permissive must expose the undamaged content, strict must reject",
-                  FILE_ASSUME)
-
-
 def check_c08(tier, seed):
     out = Outcome("C08", tier, seed)
     run_batch(out, "templates", "A", gens.c08_templates(tier))
@@ -324,4 +316,4 @@ def check_c09(tier, seed):
 
 
 CHECKS = {"C01": check_c01, "C02": check_c02, "C03": check_c03, "C07": check_c07, "C08": check_c08, "C09": check_c09,
-          "C10": check_c10, "C15": check_c15, "C16": check_c16, "C17": check_c17}
+          "C10": check_c10, "C15": check_c15, "C17": check_c17}
